@@ -167,6 +167,49 @@ def rule_glue(rep: Report, rid="C02.glue") -> None:
     rule_parse_frame(rep, rid)
 
 
+_DISPATCH = None
+
+
+def dispatch_results():
+    """{state number: (I, return term, state_fn calls, raises)} of match_token evaluated with that constant state, for every
+    state of the table and two numbers outside it."""
+    global _DISPATCH
+    if _DISPATCH is not None:
+        return _DISPATCH
+    from ..absint import new_interp, const
+    from .. import nf
+    pt = ptable()
+    fi = pt.dispatch_fi
+    p = fi.params()
+    if len(p) < 4:
+        raise AnalysisError("anchor vanished: Parser.match_token(state, token, context)")
+
+    def stub(k):
+        def h(I_, st_, fi_, args, kwargs, n, tree_):
+            tree_.append(("ev", "state_fn", (k,) + tuple(args), getattr(n, "lineno", None), 0))
+            return ("state_result", k, tuple(args[1:]))
+        return h
+    out = {}
+    for n in sorted(pt.states) + [max(pt.states) + 1, -1]:
+        I = new_interp()
+        for k in pt.states:
+            I.intrinsics[f"{PC}.match_token_at_{k}"] = stub(k)
+        tree, rv, st = I.run(fi.qualname, args={p[1]: const(n)})
+        calls = [e for e, c in nf.iter_nodes(tree) if e[0] == "ev" and e[1] == "state_fn"]
+        raises = [e for e, c in nf.iter_nodes(tree) if e[0] == "raise"]
+        out[n] = (I, rv, calls, raises)
+    _DISPATCH = out
+    return out
+
+
+def dispatched_states() -> set:
+    pt = ptable()
+    p = pt.dispatch_fi.params()
+    tok, ctx = ("param", p[2]), ("param", p[3])
+    return {n for n, (I, rv, calls, raises) in dispatch_results().items()
+            if n in pt.states and rv == ("state_result", n, (tok, ctx)) and len(calls) == 1 and not raises}
+
+
 def rule_dispatch(rep: Report, rid: str) -> None:
     """match_token(state, token, context) hands (token, context) to match_token_at_<state> and returns its result, for every
     state of the table; any other state number raises.  Decided by evaluating match_token once per constant state with the
@@ -181,18 +224,7 @@ def rule_dispatch(rep: Report, rid: str) -> None:
         raise AnalysisError("anchor vanished: Parser.match_token(state, token, context)")
     tok, ctx = ("param", p[2]), ("param", p[3])
 
-    def stub(k):
-        def h(I_, st_, fi_, args, kwargs, n, tree_):
-            tree_.append(("ev", "state_fn", (k,) + tuple(args), getattr(n, "lineno", None), 0))
-            return ("state_result", k, tuple(args[1:]))
-        return h
-    for n in sorted(pt.states) + [max(pt.states) + 1, -1]:
-        I = new_interp()
-        for k in pt.states:
-            I.intrinsics[f"{PC}.match_token_at_{k}"] = stub(k)
-        tree, rv, st = I.run(fi.qualname, args={p[1]: const(n)})
-        calls = [e for e, c in nf.iter_nodes(tree) if e[0] == "ev" and e[1] == "state_fn"]
-        raises = [e for e, c in nf.iter_nodes(tree) if e[0] == "raise"]
+    for n, (I, rv, calls, raises) in sorted(dispatch_results().items()):
         if n in pt.states:
             ok = rv == ("state_result", n, (tok, ctx)) and len(calls) == 1 and not raises
             rep.ob(rid, f"dispatch[{n}] is match_token_at_{n}", ok, file=PARSER_FILE, line=fi.node.lineno, function=fi.qualname,
@@ -491,9 +523,10 @@ def rule_state_safety(rep: Report, rid="C01.state") -> None:
     """The parse loop cannot reach 'Unknown state' and ends at EOF."""
     pt = ptable()
     ends = pt.end_states()
+    dispatched = dispatched_states()
     for s, st in sorted(pt.states.items()):
         tg = sorted({t.target for t in st.transitions if t.target is not None} | set(st.tail.returns))
-        bad = [x for x in tg if x not in pt.dispatch and x not in ends]
+        bad = [x for x in tg if x not in dispatched and x not in ends]
         rep.ob(rid, f"state {s}: every returned state is dispatched or is the end state", not bad and None not in st.tail.returns,
                file=PARSER_FILE, line=st.fi.node.lineno, function=st.fi.qualname, expected="targets within dispatch table", found=tg)
         for i, t in enumerate(st.transitions):
@@ -501,9 +534,9 @@ def rule_state_safety(rep: Report, rid="C01.state") -> None:
                 rep.ob(rid, f"state {s} transition {i}: the end state is entered only on #EOF", t.token == "EOF",
                        file=PARSER_FILE, line=t.line, function=st.fi.qualname, expected="EOF", found=t.token)
         has_eof_or_err = True  # EOF either transitions or falls to the tail (which stays in state; loop still breaks on eof)
-    for n, fn in sorted(pt.dispatch.items()):
-        rep.ob(rid, f"dispatch[{n}] resolves to a defined method", n in pt.states and fn == f"match_token_at_{n}",
-               file=PARSER_FILE, line=pt.dispatch_fi.node.lineno, function=pt.dispatch_fi.qualname, expected=f"match_token_at_{n}", found=fn)
+    for n in sorted(pt.states):
+        rep.ob(rid, f"dispatch[{n}] resolves to its state method", n in dispatched,
+               file=PARSER_FILE, line=pt.dispatch_fi.node.lineno, function=pt.dispatch_fi.qualname, expected=f"match_token_at_{n}", found="not dispatched")
     # look-ahead loops stop at EOF at the latest: every skip wrapper is False on EOF
     for n, info in sorted(pt.lookaheads.items()):
         for k in info["skip"]:
